@@ -224,6 +224,29 @@ def mon_c11_stuck(s, ctx, desc):
     return hits
 
 
+def mon_poll_fault_attribution(s, ctx, desc, prop="C18"):
+    """an exception raised by a poll-function invocation belongs to the futures that invocation was shown - never to one that was
+    registered for polling while the invocation was still running (it is shown to the next one)"""
+    hits = []
+    raised = {}
+    for e in s.log:
+        if e[1] == "pollraise" and len(e) > 4 and e[4] is not None:
+            raised[e[3]] = (e[2], set(e[4]), e[5] if len(e) > 5 else None)
+    if not raised:
+        return hits
+    for i, e in enumerate(s.log):
+        # (only the futures of the poll executor whose poll function raised: the layers above - a second poll layer included -
+        # receive the very same exception object from below, as they should)
+        if e[1] == "fset>" and e[3] == "exception" and len(e) > 6 and e[5] == "PollFuture" and e[4] in raised:
+            inv, shown, layer = raised[e[4]]
+            if layer is not None and e[6] == layer and e[2] not in shown:
+                hits.append(hit("%s/poll-fault-on-unseen-future" % prop,
+                                "future %s was failed (log %d) with the exception raised by poll invocation #%s, which was shown only %s"
+                                % (e[2], i, inv, sorted(shown))))
+                break
+    return hits
+
+
 def mon_c18(s, ctx, desc):
     hits = []
     libs = lib_threads(s)
